@@ -6,7 +6,8 @@ from c11_lib import *
 
 TRUSTED = ['Coq 8.16.1 kernel',
            'hand model coq/Scan/ScanModel.v of cmdline/scan.c (scan_file, scan_link, scan_emptydir, scan_file_keep, remove/deallocate, delayed allocate) and state.c --force-nocopy reader',
-           'hand model coq/Scan/PrehashModel.v of cmdline/sync.c state_hash_process / state_sync; coq/Array/{ArrayDefs,SyncModel}.v (shared with C06)',
+           'hand model coq/Scan/PrehashModel.v of cmdline/sync.c state_hash_process / state_sync; coq/Scan/FetchModel.v of the import/search fetch of check.c repair (tested only through fix runs); coq/Array/{ArrayDefs,SyncModel}.v (shared with C06)',
+           'definitions and lemmas of C06 imported by the proofs: coq/Array/SyncProofsDefs.v (MapOK, ParOK, PastOK, slots), SyncProofsStripe.v (frame of sync_stripe)',
            'hash-table search order = list order (first inserted first; see the header of ScanModel.v), sequential scan of the disks, disk list order = position order',
            'the directory listing (names, sizes, time-stamps, inodes, nlink, order, sort keys) is an input observed by the harness, not modelled',
            'extraction + ocaml/C11/driver.ml', 'harness/py/{arraylib,content,gfref,c11_lib,c11_model}.py (independent walk, content decoder, parity checker)', 'harness/c/shim.c']
